@@ -343,6 +343,9 @@ func (h *harness) genAdmin(sn *snap) adminReq {
 	}
 	sort.Strings(existing)
 	kind := g.Pick(4, 2, 4, 3, 2, 2, 4, 3)
+	if h.prop == "C20" {
+		kind = g.Pick(4, 2, 6, 8, 2, 2, 2, 2)
+	}
 	if len(existing) == 0 {
 		kind = 0
 	}
@@ -400,8 +403,19 @@ func (h *harness) genAdmin(sn *snap) adminReq {
 				r.mustFail = "dropping an index that is a foreign key target"
 			}
 		} else {
-			r.cols = []string{h.pick(colNames)}
-			r.text = fmt.Sprintf("alter %s drop (%s)", r.tbl, r.cols[0])
+			// mostly columns that can be dropped (live, not in an index), one or two at a time
+			var free []string
+			for _, c := range liveCols(t) {
+				if !inAnyIndex(t, c) {
+					free = append(free, c)
+				}
+			}
+			if len(free) > 0 && !g.Coin(1, 4) {
+				r.cols = h.subset(free, 1, 2)
+			} else {
+				r.cols = []string{h.pick(colNames)}
+			}
+			r.text = fmt.Sprintf("alter %s drop (%s)", r.tbl, strings.Join(r.cols, ","))
 		}
 	case 4:
 		r.kind = "alterrename"
@@ -825,6 +839,61 @@ func short(s string) string {
 
 // ---------------------------------------------------------------------------------------
 
+func (h *harness) burst() bool {
+	g := h.g
+	for i := g.Choose(6); i > 0 && !h.s.Over(); i-- {
+		sn := h.snapNow(true)
+		if sn == nil {
+			return false
+		}
+		v := h.pick(viewNames)
+		text := fmt.Sprintf("view %s = %s", v, h.pick(tableNames))
+		if _, ok := sn.Views[v]; ok {
+			text = "drop " + v
+		}
+		kind := "view"
+		if strings.HasPrefix(text, "drop") {
+			kind = "drop"
+		}
+		if !h.doAdmin(adminReq{text: text, kind: kind, tbl: v, to: strings.TrimPrefix(text, "view "+v+" = ")}) {
+			return false
+		}
+		h.persist()
+	}
+	sn := h.snapNow(true)
+	if sn == nil {
+		return false
+	}
+	var free []string
+	for _, n := range tableNames {
+		if _, ok := sn.Tables[n]; !ok {
+			free = append(free, n)
+		}
+	}
+	if len(free) == 0 {
+		return true
+	}
+	tn := h.pick(free)
+	if !h.doAdmin(adminReq{text: fmt.Sprintf("create %s (a,b) key(a)", tn), kind: "create", tbl: tn, cols: []string{"a", "b"}}) {
+		return false
+	}
+	for i := g.Choose(6); i > 0 && !h.s.Over(); i-- {
+		sn := h.snapNow(true)
+		if sn == nil || !h.doTran(sn) {
+			return false
+		}
+		h.persist()
+	}
+	if h.s.Over() {
+		return false
+	}
+	if !h.doAdmin(adminReq{text: "drop " + tn, kind: "drop", tbl: tn}) {
+		return false
+	}
+	h.persist()
+	return !h.s.Over()
+}
+
 // persist asks for an explicit persist: everything committed so far must be in it.
 func (h *harness) persist() {
 	floor := len(h.events) - 1
@@ -951,14 +1020,16 @@ func Run(s *simrt.Sim, mode string, ri *hkit.RunInfo) {
 	s.OnStep(func() { h.observe(); h.maybeImage() })
 
 	// weights: admin tran persist think restart
-	w := []int{4, 8, 2, 3, 1}
+	w := []int{4, 8, 2, 3, 1, 1}
 	switch mode {
 	case "C21":
-		w = []int{10, 5, 3, 2, 1}
+		w = []int{10, 5, 3, 2, 1, 1}
 	case "C19":
-		w = []int{2, 8, 5, 4, 1}
+		w = []int{2, 8, 5, 4, 1, 0}
 	case "C05":
-		w = []int{3, 8, 4, 3, 1}
+		w = []int{3, 8, 4, 3, 1, 0}
+	case "C20":
+		w = []int{7, 8, 2, 2, 1, 0}
 	}
 	for i := 0; i < nops && !s.Over(); i++ {
 		sn := h.snapNow(true)
@@ -986,6 +1057,13 @@ func Run(s *simrt.Sim, mode string, ri *hkit.RunInfo) {
 			h.logf("think %v", d)
 		case 4:
 			if !h.restart(false) {
+				return
+			}
+		case 5:
+			// a burst: several schema-only persists, a new table, several data-only
+			// persists, then the table is dropped (the two metadata chains have separate
+			// persist counters; this drives them apart and together again)
+			if !h.burst() {
 				return
 			}
 		}
